@@ -106,11 +106,14 @@ CLAIMED = {
              "of the canonical string); Lean theorems for the erasure half (the extension-free form of descriptor / token / object / mixture / molecule "
              "is a function of the erased structure only) and, on characters, the round trip of bond descriptors through the Python string model: "
              "C01_desc_plain_roundtrip, C01_desc_weight_roundtrip (for every weight whose printed form reads back: decidable NumTextOK), C01_desc_empty_roundtrip "
-             "(find / rfind / count / negative-index slicing / strip / split lemmas, int(str(n)) = n). The fixed-point, same-object, layout-independence, no-bar, reparse and same-seed-same-molecule "
+             "(find / rfind / count / negative-index slicing / strip / split lemmas, int(str(n)) = n), C01_desc_list_roundtrip, and of mixture specifiers: "
+             "C01_mixture_abs_roundtrip / C01_mixture_rel_roundtrip (.|m| and .|p%| read back as m and p for every number whose printed form satisfies the decidable "
+             "MixNumOK, signed-exponent forms such as 2.5e-05 included); C02_token_lossless gives the token level its raw-text half. After a generate() call the object "
+             "still prints its canonical string. The fixed-point, same-object, layout-independence, no-bar, reparse and same-seed-same-molecule "
              "clauses are decided on the implementation by the round-trip oracle over all archetypes x 3 layouts, systems and the documented strings.",
-        note="Partial: beyond bond descriptors (tokens, objects, molecules, transition lists) the fixed-point / same-object clauses are not theorems on characters "
+        note="Partial: beyond bond descriptors and mixture specifiers (tokens, objects, molecules) the fixed-point / same-object clauses are not theorems on characters "
              "(fallback of DESIGN.md 7/C01): they are decided by oracle + correspondence; masses printed after binary64 arithmetic are compared numerically (1e-9). Two defects of the pinned tree were repaired (fix: commits).",
-        technique="Lean 4 model + erasure and descriptor round-trip theorems on characters; differential correspondence on characters; round-trip oracle",
+        technique="Lean 4 model + erasure, descriptor and mixture round-trip theorems on characters; differential correspondence on characters; round-trip oracle",
         ref="7/C01"),
     "C02": dict(
         text="Lean 4: C02_binding_simulation (the atom_to_bond stack machine of the binding pass simulates the SMILES reading in which a descriptor is an atom, "
